@@ -176,7 +176,9 @@ def verify_function(repo, registry, qualname, only_variant=None):
                             ok = False
                 ctx.oblige(f"{pre}/delegates[{callee.replace('pyrepseq.', '')}]",
                            z3.And(*terms) if (ok and terms) else z3.BoolVal(bool(ok)), kind="post", assume_after=False, **meta)
-            for fname, ex in c.sets:
+            for fname, ex, ao in c.sets:
+                if ao:
+                    continue
                 exp = c.eval_spec(interp, ex, spec_env)
                 got = bound["self"].attrs.get(fname)
                 if got is exp:
